@@ -5,7 +5,7 @@ unique job tags + stability sampling + callback counts + quiescence checks;
 job kinds apply / map / imap / imap_unordered, unsendable tasks, input iterables
 that raise after k items, discards, terminate_job, duplicates of old messages.
 Lane REAL (vmon.real): the same job mixes on real pools with real worker
-deaths, time limits and unpicklable arguments."""
+deaths, time limits and unpicklable arguments.  Every third REAL scenario runs with schedule perturbation of the host's pool threads (vmon/chaos.py)."""
 from vmon import simcheck
 
 PROPERTY = 'C01'
